@@ -549,6 +549,81 @@ fn exhaustive(cfg: &Cfg, worker: usize, max_n: usize, streams: u64) -> Report {
     rep
 }
 
+/// trees that live on storage which already holds an older, larger tree: after `reset()`
+/// (both implementations) and after `load(storage, k)` at an earlier leaf count
+fn reused(cfg: &Cfg, worker: usize) -> Report {
+    let mut rep = Report::new();
+    let olds: &[usize] = if cfg.thorough { &[4, 8, 11, 16, 21, 33, 64] } else { &[8, 11, 16, 21] };
+    for (oi, &old) in olds.iter().enumerate() {
+        if oi % cfg.threads.max(1) != worker % cfg.threads.max(1) {
+            continue;
+        }
+        let mut lrng = Rng::derive(cfg.seed, 0x10_30, old as u64);
+        for new in 1..old {
+            // (a) reset, then a smaller tree over other data
+            let mut mem = MemTree::new();
+            let storage = SharedMap::new();
+            let mut stor: StorTree = binary::MerkleTree::new(storage.clone());
+            for _ in 0..old {
+                let d = leaf(&mut lrng);
+                mem.push(&d);
+                let _ = stor.push(&d);
+            }
+            mem.reset();
+            stor.reset();
+            let mut memo = r::Memo::new();
+            let mut datas: Vec<Vec<u8>> = vec![];
+            for _ in 0..new {
+                let d = leaf(&mut lrng);
+                mem.push(&d);
+                let _ = stor.push(&d);
+                memo.push(&d);
+                datas.push(d);
+            }
+            let want_root = memo.root(new);
+            for i in 0..new {
+                let want_path = memo.path(i, new);
+                let ctx = format!("after-reset|n={}|pos={}", bucket(new as u64), pos_class(i as u64, new as u64));
+                let datas_ref = &datas;
+                for name in [MEM, STOR] {
+                    let got = if name == MEM { mem_prove(&mem, i as u64) } else { stor_prove(&stor, i as u64) };
+                    check_prove(&mut rep, name, got, &want_root, &want_path, &datas[i], i as u64, new as u64, &ctx, &|| {
+                        json!({"kind":"note","what":"tree rebuilt after reset on used storage","old":old,"new":new,"i":i,"leaves":datas_ref.iter().map(hx).collect::<Vec<_>>()})
+                    });
+                }
+            }
+            rep.count("reused_storage_trees_checked");
+        }
+        // (b) load at every earlier count of one growing tree
+        let storage = SharedMap::new();
+        let mut stor: StorTree = binary::MerkleTree::new(storage.clone());
+        let mut memo = r::Memo::new();
+        let mut datas: Vec<Vec<u8>> = vec![];
+        for _ in 0..old {
+            let d = leaf(&mut lrng);
+            let _ = stor.push(&d);
+            memo.push(&d);
+            datas.push(d);
+        }
+        for k in 1..old {
+            let Ok(Ok(t)) = guarded(|| StorTree::load(storage.clone(), k as u64)) else {
+                rep.count("unjudged_load_failed(C11)");
+                continue;
+            };
+            let want_root = memo.root(k);
+            for i in 0..k {
+                let want_path = memo.path(i, k);
+                let ctx = format!("after-load|n={}|pos={}", bucket(k as u64), pos_class(i as u64, k as u64));
+                check_prove(&mut rep, STOR, stor_prove(&t, i as u64), &want_root, &want_path, &datas[i], i as u64, k as u64, &ctx, &|| {
+                    json!({"kind":"note","what":"tree loaded at an earlier count from storage holding a larger tree","old":old,"k":k,"i":i})
+                });
+            }
+            rep.count("reused_storage_trees_checked");
+        }
+    }
+    rep
+}
+
 /// leaf j of a big tree (self-contained formula so that replay records stay small)
 fn big_leaf(salt: u32, j: u64) -> [u8; 3] {
     let v = (j as u32).wrapping_mul(2_654_435_761) ^ salt;
@@ -782,6 +857,7 @@ pub fn run(cfg: &Cfg) -> Report {
     let mut rep = par(cfg.threads, |w| {
         let mut r = exhaustive(cfg, w, max_n, streams);
         r.merge(constructed(cfg, w, rounds));
+        r.merge(reused(cfg, w));
         r.merge(big(cfg, w, &counts, random_per_n));
         r
     });
@@ -795,6 +871,7 @@ pub fn run(cfg: &Cfg) -> Report {
     let ops_seen = OPS.iter().filter(|o| rep.counter(&format!("op:{o}")) > 0).count() as u64;
     rep.gate("mutation_operators_seen", ops_seen, OPS.len() as u64);
     rep.gate("proofs_checked", rep.counter("proofs_checked"), (max_n * (max_n + 1)) as u64);
+    rep.gate("reused_storage_trees_checked", rep.counter("reused_storage_trees_checked"), 20);
     rep.gate("reference_accepts", rep.counter("ref_accepts"), 1000);
     rep.gate("reference_rejects", rep.counter("ref_rejects"), 1000);
     rep.gate("classes", rep.classes.len() as u64, 300);
